@@ -43,12 +43,13 @@ def feedQuery (s : State) (c : String) (bf : Backfill) (keysOnly : Bool) : List 
   | some x =>
     match bf with
     | .none => []
+    | .resume => []
     | .from startCas =>
       [.beginBackfill] ++ (backfillRows x.docs startCas).map (fun d => .ev (backfillEvent d.1 d.2 keysOnly) x.id false) ++ [.endBackfill]
 
 /-- … and, later, the registration that makes live events reach the feed. -/
 def feedRegister (s : State) (id c : String) (items : List FeedItem) (dump keysOnly : Bool) : State :=
-  { s with feeds := s.feeds ++ [{ id := id, coll := c, keysOnly := keysOnly, dump := dump, pending := items }] }
+  { s with feeds := (s.feeds.filter (fun g => g.id ≠ id)) ++ [{ id := id, coll := c, keysOnly := keysOnly, dump := dump, pending := items }] }
 
 /-- The CAS values of the events a feed has been given, in delivery order. -/
 def feedCas (f : Feed) : List Nat :=
